@@ -613,6 +613,16 @@ pub fn run_with(cli: Cli, extra: &dyn Fn(&Report)) -> ! {
                     let Some(frame) = base.packets.iter().position(|(_, p)| p.kind() == "ConfDisconnect") else {
                         common::machinery("C06: a silent client was not sent the timeout Disconnect in the undisturbed run");
                     };
+                    // (the undisturbed run itself: one Keep Alive, then exactly one Disconnect, then nothing)
+                    let tail: Vec<&str> = base.kinds().into_iter().skip_while(|k| *k != "LoginSuccess").skip(1).collect();
+                    if tail != ["KeepAlive", "ConfDisconnect"] && first == 1 {
+                        rep.violation(Violation {
+                            key: "packet-after-the-final-disconnect".into(),
+                            text: format!("a silent client, routing latencies {lat:?}: after Login Success it was sent {tail:?} ({:?}); one Keep Alive and one Disconnect are due", base.result),
+                            replay: json!({"earlier": "silent-client", "lat": lat, "secret": secret}),
+                            weight: 8,
+                        });
+                    }
                     if until > 0 {
                         case.transport.writes.push(WriteDev { frame, prog: vec![WStep::Accept(first), WStep::Until(until)] });
                     }
@@ -632,6 +642,17 @@ pub fn run_with(cli: Cli, extra: &dyn Fn(&Report)) -> ! {
             }
         }
         rep.set("histories_with_a_stalled_timeout_disconnect", json!(n));
+    }
+    // "exactly one Status Response (the status service's answer as JSON) and one Pong, and nothing else" for answers
+    // of every length around the places where the length prefix of a clientbound frame grows
+    {
+        let sweep = crate::sim::status_size_sweep(thorough);
+        for (label, want, obs) in &sweep {
+            if let Some(f) = crate::sim::status_fault(want, obs) {
+                rep.violation(Violation { key: "status-answer-not-delivered".into(), text: format!("{label}: {f}"), replay: json!({"earlier": "status-size", "label": label}), weight: 9 });
+            }
+        }
+        rep.set("status_answers_of_graded_length", json!(sweep.len()));
     }
     extra(&rep);
     rep.finish()
